@@ -205,5 +205,32 @@ def r6_grant_is_final(ctx):
                "marks itself completed, and the permits are neither held nor returned", loc=p.loc(e))
 
 
-RULES = [("C18.R1", r1_pairing), ("C18.R2", r2_single_writers), ("C18.R3", r3_cancel), ("C18.R4", r4_fair_admission), ("C18.R5", r5_current_poller),
-         ("C18.R6", r6_grant_is_final)]
+def r7_grant_loop_fixpoint(ctx):
+    """"a waiter at the head is granted as soon as enough permits exist ... never strands the waiters behind it": the grant loop of a
+    fair semaphore stops only when the queue is empty or its head does not fit (source invariant 1).  Any other exit — a grant limit, a
+    flag — can leave a head that fits in the queue with nobody left to serve it."""
+    prog = ctx.prog
+    u = ctx.body(B + "BatchSemaphoreState::unblock_waiters_from_front", "C18.R7")
+    fs = FlowSlicer(u, control=False)
+    allowed = set()
+    for bb in range(len(u.blocks)):
+        t = u.term(bb)
+        if t.get("k") != "switch":
+            continue
+        labs = fs.operand_labels(t["discr"], u.term_site(bb))
+        arms = dict((a[0], a[1]) for a in t["arms"])
+        zero = arms.get(0, t["otherwise"])
+        if any(l.endswith("VecDeque::front") for l in labs) and ("field:" + WAITERS) in labs and not any(l.endswith(("::available", "num_permits")) for l in labs):
+            allowed.add((bb, zero))              # front() is None: the queue is empty
+        if any(l.endswith("PermitsAvailable::available") for l in labs) and ("field:" + B + "Waiter.num_permits") in labs:
+            allowed.add((bb, zero))              # the head does not fit
+    ctx.floor("C18.R7", "legitimate exits of the grant loop (queue empty / head does not fit)", len(allowed), 2)
+    w = u.path_exists(None, u.is_return, edge_ok=lambda a, nb: (a, nb) not in allowed)
+    ctx.ob("C18.R7", "grant-loop-runs-to-fixpoint", len(allowed) >= 2 and w is None,
+           "unblock_waiters_from_front returns only when the queue is empty or the head does not fit" if (len(allowed) >= 2 and w is None) else
+           "unblock_waiters_from_front can return while the queue is non-empty and its head fits (an exit other than `front() is None` / `head does not fit`): "
+           "waiters behind a cancelled or served head are stranded although enough permits are available", loc=u.loc())
+
+
+RULES =[("C18.R1", r1_pairing), ("C18.R2", r2_single_writers), ("C18.R3", r3_cancel), ("C18.R4", r4_fair_admission), ("C18.R5", r5_current_poller),
+         ("C18.R6", r6_grant_is_final), ("C18.R7", r7_grant_loop_fixpoint)]
